@@ -467,6 +467,11 @@ class Interp:
             a = self.ev(e["args"][0], env, depth)
             self.out.append((recv, self.display(a) if not isinstance(a, str) else a))
             return ("Ok", ())
+        if e.get("k") == "mcall" and name in ("len", "is_empty") and not e.get("args"):
+            v = self.ev(e["recv"], env, depth)
+            if isinstance(v, (list, tuple, str)) and not (isinstance(v, tuple) and v and v[0] in ("__some", "__closure")):
+                return len(v) if name == "len" else len(v) == 0
+            raise Unsupported("%s on %r" % (name, v))
         if e.get("k") == "mcall" and name == "is_some":
             return self.ev(e["recv"], env, depth) is not None
         if e.get("k") == "mcall" and name == "is_none":
